@@ -334,6 +334,27 @@ func runC03(c *Ctx) {
 			}
 		}
 	}
+	// booleans are converted by swag.ConvertBool (case-insensitive over its list of true literals): what SetBool stores is
+	// its result, or the default's own Bool()
+	for _, ci := range callsIn(sf, "(reflect.Value).SetBool") {
+		if ci.Parent() != sf {
+			continue
+		}
+		_, a := callArgs(ci.Common())
+		okB, bad := allOrigins(a[0], oCall(0, "github.com/go-openapi/swag.ConvertBool"), oCall(-1, "(reflect.Value).Bool"))
+		c.obI("R03.5", ci, "boolean-from-ConvertBool", okB, "a boolean parameter is stored from swag.ConvertBool(text) (or from the default)", "the boolean stored originates from "+describeOrigin(bad)+": literals ConvertBool accepts in any case (TRUE, Yes, On) bind to another value without a 422")
+	}
+	// the "required" refusal of a scalar is waived by the DECLARED default (parameter.Default), not by the default value
+	// a caller happens to hand in (array items are converted with a nil default)
+	for _, rq := range callsIn(sf, "github.com/go-openapi/errors.Required") {
+		if rq.Parent() != sf {
+			continue
+		}
+		declared := factNil(func(v ssa.Value) bool {
+			return vFieldLoad(simpleT, "Default", nil)(v) || vFieldLoadO(simpleT, "Default")(v)
+		}, true)
+		c.obI("R03.7", rq, "required-waived-by-the-declared-default", guardedBy(rq, nil, declared), "a missing required value is refused unless the parameter DECLARES a default", "the refusal does not test parameter.Default: an empty item of a required array with a declared default is refused (items are converted with a nil default)")
+	}
 	// a literal is refused as "not of the declared type" only because its conversion failed or overflowed: InvalidType is
 	// never pronounced on the TEXT itself (its length, a prefix, a character class) — the parser decides what is a valid
 	// in-range literal ("-9223372036854775808" has twenty characters)
